@@ -225,7 +225,10 @@ func runORD21(p *Prog, r *RuleRun) {
 			}
 		}
 	}
-	underLock := map[string]bool{"CLOSE(trigger)": true, "STATE.Store": true, "FIN.Store": true, "MetaStore.Close": true, "AWAIT=nil": true, "CLOSE(await)": true}
+	// STATE.Load: the state Close tears down is the one that is current while it holds the lock; a snapshot taken
+	// before queueing for the lock misses whatever the writer ahead of it installed (its new tail is never closed,
+	// its finalizer is overwritten)
+	underLock := map[string]bool{"CLOSE(trigger)": true, "STATE.Store": true, "STATE.Load": true, "FIN.Store": true, "MetaStore.Close": true, "AWAIT=nil": true, "CLOSE(await)": true}
 	spec.OnEvent = func(cx *Ctx, ev, phase string, ins ssa.Instruction, f *Fact) {
 		switch ev {
 		case "LOCK":
